@@ -159,7 +159,7 @@ func checkSplit(c splitCase) (o pbt.Outcome) {
 	if c.Complete && len(want) > 0 {
 		var stmts []ast.StmtNode
 		var perr error
-		if p := pbt.Catch(func() { stmts, _, perr = parser.New().Parse(text, "", "") }); p != "" {
+		if p := pbt.Catch(func() { stmts, _, perr = sqlParser.Parse(text, "", "") }); p != "" {
 			perr = fmt.Errorf("parser panic: %s", p)
 		}
 		if perr != nil {
@@ -192,10 +192,22 @@ func checkSplit(c splitCase) (o pbt.Outcome) {
 	}
 	gt := trimAll(got)
 	if len(gt) != len(want) || (len(want) > 0 && !reflect.DeepEqual(gt, want)) {
-		o.Violation = fmt.Sprintf("SplitStatementToPieces(%q) = %q; the statements are %q", text, got, want)
+		detail := fmt.Sprintf("SplitStatementToPieces(%q) = %q; the statements are %q", text, got, want)
+		// C17-F1: the piece after the last separator is dropped when it is exactly
+		// one byte long (stmtBegin < blobTail is an off-by-one). Nothing else may differ.
+		if len(want) >= 1 && len(gt) == len(want)-1 && reflect.DeepEqual(gt, want[:len(gt):len(gt)]) &&
+			len(want[len(want)-1]) == 1 && strings.HasSuffix(text, ";"+want[len(want)-1]) {
+			o.Known, o.KnownWhat = "C17-F1", detail
+			return
+		}
+		o.Violation = detail
 	}
 	return
 }
+
+// one parser instance for the whole run (parser.New allocates its tables anew each
+// time); Parse resets it, so the check stays a function of the case alone
+var sqlParser = parser.New()
 
 func TestC17Split(t *testing.T) {
 	pbt.Run(t, pbt.Spec{ID: "C17", Sub: "split", Quick: 20000, Thorough: 200000,
